@@ -786,8 +786,9 @@ class MindsDBParser(Parser):
             else:
                 primary_keys = item
         for col_name in primary_keys:
-            if col_name in table_columns:
-                table_columns[col_name].is_primary_key = True
+            if col_name not in table_columns:
+                raise ParsingException(f'PRIMARY KEY column is not defined: {col_name}')
+            table_columns[col_name].is_primary_key = True
 
         return CreateTable(
             name=p.identifier,
